@@ -200,7 +200,10 @@ fn parse_req(bytes: &[u8]) -> Req {
     } else {
         id8.copy_from_slice(&bytes[40..48]);
     }
-    let uid = walk_efs(&bytes[48..]).into_iter().find(|(t, _)| *t == 0x0104).map(|(_, b)| b);
+    let uid = walk_efs(&bytes[48..])
+        .into_iter()
+        .find(|(t, _)| *t == 0x0104)
+        .map(|(_, b)| b);
     Req {
         bytes: bytes.to_vec(),
         version,
@@ -259,8 +262,24 @@ pub(crate) struct Ans {
 }
 
 impl Ans {
-    pub(crate) fn plain(id: IdSel, version: u8, marker: bool, mode: u8, stratum: u8, kiss: Kiss) -> Ans {
-        Ans { id, version, marker, mode, stratum, kiss, auth: false, uid: UidSel::Absent }
+    pub(crate) fn plain(
+        id: IdSel,
+        version: u8,
+        marker: bool,
+        mode: u8,
+        stratum: u8,
+        kiss: Kiss,
+    ) -> Ans {
+        Ans {
+            id,
+            version,
+            marker,
+            mode,
+            stratum,
+            kiss,
+            auth: false,
+            uid: UidSel::Absent,
+        }
     }
 
     /// Harness-side reading of the statement: "is in server mode, is not a KISS code and
@@ -396,7 +415,9 @@ pub(crate) struct Rig {
     s2c: Option<AesSivCmac256>,
 }
 
-fn classify(actions: impl Iterator<Item = NtpSourceAction>) -> (Vec<Act>, Option<Vec<u8>>, Option<Duration>) {
+fn classify(
+    actions: impl Iterator<Item = NtpSourceAction>,
+) -> (Vec<Act>, Option<Vec<u8>>, Option<Duration>) {
     let mut acts = Vec::new();
     let mut sent = None;
     let mut timer = None;
@@ -425,7 +446,10 @@ impl Rig {
     pub(crate) fn new(mode: Mode) -> Rig {
         let rec = Arc::new(Mutex::new(Rec::default()));
         let cfg = SourceConfig::default();
-        let stub = Stub { rec: rec.clone(), desired: cfg.poll_interval_limits.min };
+        let stub = Stub {
+            rec: rec.clone(),
+            desired: cfg.poll_interval_limits.min,
+        };
         let info = Arc::new(RwLock::new(NtpSourceInfo {
             ip_list: Arc::from(Vec::<IpAddr>::new()),
             server_id: ServerId::default(),
@@ -463,7 +487,14 @@ impl Rig {
             info,
             snaps,
         );
-        Rig { mode, src, rec, requests: Vec::new(), deliveries: 0, s2c }
+        Rig {
+            mode,
+            src,
+            rec,
+            requests: Vec::new(),
+            deliveries: 0,
+            s2c,
+        }
     }
 
     pub(crate) fn view(&self) -> View {
@@ -481,7 +512,11 @@ impl Rig {
             self.requests.push(parse_req(&b));
             self.requests.len() - 1
         });
-        TimerObs { acts, sent, set_timer }
+        TimerObs {
+            acts,
+            sent,
+            set_timer,
+        }
     }
 
     /// The request an answer with identifier selector `id` refers to.
@@ -649,7 +684,11 @@ impl Rig {
                 && new[1].sender_ts == NtpTimestamp::from_bits(x)
                 && new[1].receiver_ts == recv_time
         };
-        DeliverObs { acts, meas_calls: new.len(), linked }
+        DeliverObs {
+            acts,
+            meas_calls: new.len(),
+            linked,
+        }
     }
 
     pub(crate) fn deliver(&mut self, a: &Ans) -> Option<(Vec<u8>, DeliverObs)> {
@@ -700,7 +739,12 @@ pub(crate) fn level_bfs<K: Eq + std::hash::Hash + Clone + Send>(
     let mut seen: std::collections::HashSet<K> = std::collections::HashSet::new();
     seen.insert(init_key);
     let mut frontier: Vec<Vec<u16>> = vec![vec![]];
-    let mut stats = LevelStats { states: 1, transitions: 0, max_depth: 0, fixpoint: false };
+    let mut stats = LevelStats {
+        states: 1,
+        transitions: 0,
+        max_depth: 0,
+        fixpoint: false,
+    };
     let mut depth = 0u64;
     while !frontier.is_empty() && depth < max_depth {
         if !on_level(depth, frontier.len()) {
@@ -708,18 +752,13 @@ pub(crate) fn level_bfs<K: Eq + std::hash::Hash + Clone + Send>(
         }
         let out: Mutex<Vec<(usize, u16, K)>> = Mutex::new(Vec::new());
         let fr = &frontier;
-        common::par_for_with(
-            fr.len() as u64,
-            4,
-            paused_rt,
-            |rt, i| {
-                let succ = expand(rt, &fr[i as usize]);
-                let mut o = out.lock().unwrap();
-                for (e, k) in succ {
-                    o.push((i as usize, e, k));
-                }
-            },
-        );
+        common::par_for_with(fr.len() as u64, 4, paused_rt, |rt, i| {
+            let succ = expand(rt, &fr[i as usize]);
+            let mut o = out.lock().unwrap();
+            for (e, k) in succ {
+                o.push((i as usize, e, k));
+            }
+        });
         let mut cands = out.into_inner().unwrap();
         cands.sort_by(|a, b| (a.0, a.1).cmp(&(b.0, b.1)));
         let mut next = Vec::new();
